@@ -547,3 +547,76 @@ Proof.
     destruct (IH i eq_refl) as (l1 & l2 & -> & Hl & Hni). exists (z :: l1), l2. repeat split; [cbn; lia|].
     intros [E|H]; [congruence|contradiction].
 Qed.
+
+
+(* ---- the contracted tensor and the new node's logical axes, in segments -------------------------------- *)
+Lemma map_nth_seq_at {A} (d : A) l a b c st k :
+  l = a ++ b ++ c -> st = length a -> k = length b -> map (fun i => nth i l d) (seq st k) = b.
+Proof. intros -> -> ->. apply map_nth_seq_mid. Qed.
+
+Lemma ccn_laxes first (P0 PC PO CC CO : list wire) lp :
+  lp - 1 = length P0 + length PC + length PO ->
+  map (fun i => nth i (P0 ++ PC ++ PO ++ CC ++ CO) 0)
+      (ccn_perm first (length P0) (length PC) (length CC) (length PO) (length CO) lp)
+  = P0 ++ (if first then PC ++ CC ++ PO ++ CO else CC ++ PC ++ CO ++ PO).
+Proof.
+  intros Hlp. set (L := P0 ++ PC ++ PO ++ CC ++ CO).
+  assert (S0 : map (fun i => nth i L 0) (seq 0 (length P0)) = P0).
+  { apply (map_nth_seq_at 0 L [] P0 (PC ++ PO ++ CC ++ CO)); reflexivity. }
+  assert (S1 : map (fun i => nth i L 0) (seq (length P0) (length PC)) = PC).
+  { apply (map_nth_seq_at 0 L P0 PC (PO ++ CC ++ CO)); reflexivity. }
+  assert (S2 : map (fun i => nth i L 0) (seq (length P0 + length PC) (length PO)) = PO).
+  { apply (map_nth_seq_at 0 L (P0 ++ PC) PO (CC ++ CO)); [unfold L; rewrite <- !app_assoc; reflexivity|rewrite app_length; reflexivity|reflexivity]. }
+  assert (S3 : map (fun i => nth i L 0) (seq (lp - 1) (length CC)) = CC).
+  { apply (map_nth_seq_at 0 L (P0 ++ PC ++ PO) CC CO); [unfold L; rewrite <- !app_assoc; reflexivity|rewrite !app_length; lia|reflexivity]. }
+  assert (S4 : map (fun i => nth i L 0) (seq (lp - 1 + length CC) (length CO)) = CO).
+  { apply (map_nth_seq_at 0 L (P0 ++ PC ++ PO ++ CC) CO []); [unfold L; rewrite app_nil_r, <- !app_assoc; reflexivity|rewrite !app_length; lia|reflexivity]. }
+  unfold ccn_perm. destruct first; rewrite !map_app, S0, S1, S2, S3, S4; reflexivity.
+Qed.
+
+Lemma lax_identity s k n : wf s -> aget k (nodes s) = Some n -> perm n = seq 0 (nlegs n) -> lax s k n = axes (tens s k).
+Proof.
+  intros W E Hp. unfold lax, laxes. rewrite Hp, <- (wf_axes_length s k n W E). apply permute_seq.
+Qed.
+
+Lemma contract_segments s p c pn cn ax nt :
+  wf s -> aget p (nodes s) = Some pn -> aget c (nodes s) = Some cn -> parent cn = Some p ->
+  perm pn = seq 0 (nlegs pn) -> perm cn = seq 0 (nlegs cn) ->
+  neighbour_index pn c = Some ax -> s_tensordot (tens s p) (tens s c) ax 0 = Some nt ->
+  exists P0 ch1 ch2,
+    children pn = ch1 ++ c :: ch2 /\ ~ In c ch1 /\
+    lax s p pn = P0 ++ map (ew s) (children pn) ++ open_of pn (tens s p) /\ length P0 = nparents pn /\
+    P0 = firstn (nparents pn) (lax s p pn) /\
+    lax s c cn = ew s c :: map (ew s) (children cn) ++ open_of cn (tens s c) /\
+    axes nt = P0 ++ map (ew s) (ch1 ++ ch2) ++ open_of pn (tens s p) ++ map (ew s) (children cn) ++ open_of cn (tens s c) /\
+    atoms nt = atoms (tens s p) ++ atoms (tens s c) /\ bnd nt = ew s c :: bnd (tens s p) ++ bnd (tens s c) /\
+    axes (tens s p) = lax s p pn /\ axes (tens s c) = lax s c cn.
+Proof.
+  intros W Ep Ec Hpc Pp Pc Hax Htd.
+  pose proof (lax_identity s p pn W Ep Pp) as HLp. pose proof (lax_identity s c cn W Ec Pc) as HLc.
+  pose proof (wf_lax_decomp s p pn W Ep) as Dp. pose proof (wf_lax_decomp s c cn W Ec) as Dc.
+  set (P0 := firstn (nparents pn) (lax s p pn)) in *.
+  pose proof (wf_node s W p pn Ep) as Hnp. pose proof (wf_node s W c cn Ec) as Hnc.
+  assert (HlenP0 : length P0 = nparents pn).
+  { unfold P0. apply firstn_length_le. unfold lax. rewrite laxes_length. pose proof (ni_virt _ _ _ Hnp) as Hv. unfold nvirt in Hv. lia. }
+  assert (Hc1 : firstn (nparents cn) (lax s c cn) = [ew s c]).
+  { unfold ew. rewrite Ec. unfold nparents. rewrite Hpc.
+    pose proof (laxes_length cn (tens s c)) as Hl. fold (lax s c cn) in Hl.
+    pose proof (ni_virt _ _ _ Hnc) as Hv. unfold nvirt, nparents in Hv. rewrite Hpc in Hv.
+    destruct (lax s c cn) as [|x t]; [cbn in Hl; lia|reflexivity]. }
+  rewrite Hc1 in Dc. cbn [app] in Dc.
+  assert (Hppc : parent pn <> Some c) by apply (wf_parent_not_child s c cn p pn W Ec Hpc Ep).
+  rewrite (neighbour_index_child pn c Hppc) in Hax.
+  destruct (index_of c (children pn)) as [j|] eqn:Ej; [|discriminate]. cbn in Hax. injection Hax as <-.
+  destruct (index_of_split c (children pn) j Ej) as (ch1 & ch2 & Hch & Hl1 & Hni).
+  exists P0, ch1, ch2.
+  unfold s_tensordot in Htd. rewrite <- HLp, <- HLc in Htd.
+  assert (HLp2 : lax s p pn = (P0 ++ map (ew s) ch1) ++ ew s c :: (map (ew s) ch2 ++ open_of pn (tens s p))).
+  { rewrite Dp at 1. rewrite Hch, map_app. cbn [map]. rewrite <- !app_assoc. reflexivity. }
+  rewrite HLp2 in Htd at 1.
+  replace (nparents pn + j) with (length (P0 ++ map (ew s) ch1)) in Htd by (rewrite app_length, map_length; nlia).
+  rewrite pop_app in Htd. rewrite Dc in Htd at 1. cbn [pop] in Htd. rewrite Nat.eqb_refl in Htd.
+  injection Htd as <-. cbn [axes atoms bnd].
+  repeat split; auto.
+  rewrite map_app, <- !app_assoc. reflexivity.
+Qed.
